@@ -33,6 +33,28 @@ Definition wf_outcome (o : outcome) : Prop :=
 Definition no_hang (timeo : bool) (o : outcome) : Prop :=
   match o with OPending _ LNever => timeo = true | _ => True end.         (* silence needs a timeout *)
 
+(* the addresses the request gets to: up to and including the first one that connects *)
+Definition is_ok (o : outcome) : bool := match o with OPending _ LOk => true | _ => false end.
+Fixpoint first_ok (sas : list outcome) : option nat :=
+  match sas with
+  | [] => None
+  | o :: r => if is_ok o then Some 0 else option_map S (first_ok r)
+  end.
+(* number of addresses the request gets to *)
+Definition reached (sas : list outcome) : nat :=
+  match first_ok sas with Some i => S i | None => length sas end.
+
+(* hypotheses are needed only about the addresses actually reached *)
+Lemma forall_reached_cons (P : outcome -> Prop) o r :
+  Forall P (firstn (reached (o :: r)) (o :: r)) ->
+  P o /\ (is_ok o = false -> Forall P (firstn (reached r) r)).
+Proof.
+  unfold reached. cbn [first_ok]. destruct (is_ok o) eqn:K.
+  - cbn [firstn]. intros H. inversion H; subst. split; [assumption|discriminate].
+  - destruct (first_ok r) as [i|]; cbn [option_map length]; rewrite firstn_cons; intros H;
+      inversion H; subst; split; auto.
+Qed.
+
 (* ---------------------------------------------------------------- model = spec trace *)
 Definition run_from (fuel : nat) (st : cstate) : res (list cobs * cres) :=
   match tryconnect st all_ok with
@@ -70,99 +92,100 @@ Proof.
   - reflexivity.
 Qed.
 
+(* the rest of the list after an attempt that failed asynchronously or timed out *)
+Lemma drive_tail f r timeo a next pre :
+  run_from f (mkC r None timeo false false (S a) (S next)) = Ok (spec_trace timeo (S a) (S next) r, Finished 0%Z) ->
+  (let (c, obs) :=
+     let (r0, obs) := tryconnect (mkC r None timeo false false (S a) (S next)) all_ok in
+     (r0, pre ++ obs) in
+   match c with
+   | Running st' =>
+     match conn_drive f st' with
+     | Ok (t, fin) => Ok (obs ++ t, fin)
+     | Fault => Fault | AssertFail => AssertFail | OutOfFuel => OutOfFuel
+     end
+   | Finished rc => Ok (obs, Finished rc)
+   end) = Ok (pre ++ spec_trace timeo (S a) (S next) r, Finished 0%Z).
+Proof.
+  unfold run_from. intros IH.
+  destruct (tryconnect (mkC r None timeo false false (S a) (S next)) all_ok) as [[st'|rc] obs'].
+  - destruct (conn_drive f st') as [[t fin]| | |]; try discriminate.
+    inversion IH; subst. rewrite <- app_assoc. reflexivity.
+  - inversion IH; subst. reflexivity.
+Qed.
+
+Ltac conn_simpl :=
+  cbn [all_ok timer_ok net_ok imm_ok negb];
+  cbn [conn_drive natural_event c_imm c_s c_sas c_timer];
+  cbn [conn_step c_s c_timer callback_connect negb c_imm c_timeo c_sas c_addr c_next].
+
+Ltac conn_simpl2 :=
+  unfold callback_timeo, dofailed, docallback;
+  cbn [negb N.eqb c_s c_sas c_timeo c_timer c_imm c_addr c_next tl close_if spec_trace tmr].
+
+(* The hypotheses concern only the addresses the request gets to (up to and including the first
+   one that connects): what the kernel would do for later addresses is never asked. *)
 Lemma run_from_spec : forall sas timeo a next fuel s,
-  Forall wf_outcome sas -> Forall (no_hang timeo) sas -> length sas < fuel ->
+  Forall wf_outcome (firstn (reached sas) sas) -> Forall (no_hang timeo) (firstn (reached sas) sas) ->
+  length sas < fuel ->
   run_from fuel (mkC sas s timeo false false a next) = Ok (spec_trace timeo a next sas, Finished 0%Z).
 Proof.
   induction sas as [|o r IH]; intros timeo a next fuel s Hwf Hnh Hf.
   - destruct fuel as [|f]; [simpl in Hf; lia|]. reflexivity.
-  - inversion Hwf as [|? ? Wo Wr]; subst. inversion Hnh as [|? ? No Nr]; subst.
+  - destruct (forall_reached_cons _ _ _ Hwf) as (Wo & Wr).
+    destruct (forall_reached_cons _ _ _ Hnh) as (No & Nr).
     cbn [length] in Hf.
     destruct o as [| |e|cret l].
     + rewrite (run_from_failnow fuel OSockFail r s timeo a next next [CSockFail a] eq_refl).
-      rewrite IH by (auto; lia). reflexivity.
+      rewrite (IH timeo (S a) next fuel s (Wr eq_refl) (Nr eq_refl) ltac:(lia)). reflexivity.
     + rewrite (run_from_failnow fuel OSetupFail r s timeo a next (S next) _ eq_refl).
-      rewrite IH by (auto; lia). reflexivity.
+      rewrite (IH timeo (S a) (S next) fuel s (Wr eq_refl) (Nr eq_refl) ltac:(lia)). reflexivity.
     + rewrite (run_from_failnow fuel (OConnFail e) r s timeo a next (S next) _ eq_refl).
-      rewrite IH by (auto; lia). reflexivity.
+      rewrite (IH timeo (S a) (S next) fuel s (Wr eq_refl) (Nr eq_refl) ltac:(lia)). reflexivity.
     + destruct fuel as [|f]; [lia|].
       assert (Hf' : length r < f) by lia.
-      specialize (IH timeo (S a) (S next) f None Wr Nr Hf').
-      unfold run_from in IH.
-      unfold run_from, tryconnect.
-      cbn [c_sas c_addr c_next c_timeo c_timer c_imm try_loop sock_connect_bind_nb].
-      assert (Tail : forall pre,
-        match
-          (let (c, obs) :=
-             let (r0, obs) := tryconnect (mkC r None timeo false false (S a) (S next)) all_ok in
-             (r0, pre ++ obs) in
-           match c with
-           | Running st' =>
-             match conn_drive f st' with
-             | Ok (t, fin) => Ok (obs ++ t, fin)
-             | Fault => Fault | AssertFail => AssertFail | OutOfFuel => OutOfFuel
-             end
-           | Finished rc => Ok (obs, Finished rc)
-           end)
-        with
-        | Ok (t, fin) => Ok (pre ++ spec_trace timeo (S a) (S next) r, fin)
-        | Fault => Fault | AssertFail => AssertFail | OutOfFuel => OutOfFuel
-        end = Ok (pre ++ spec_trace timeo (S a) (S next) r, Finished 0%Z) /\
-        (let (c, obs) :=
-             let (r0, obs) := tryconnect (mkC r None timeo false false (S a) (S next)) all_ok in
-             (r0, pre ++ obs) in
-           match c with
-           | Running st' =>
-             match conn_drive f st' with
-             | Ok (t, fin) => Ok (obs ++ t, fin)
-             | Fault => Fault | AssertFail => AssertFail | OutOfFuel => OutOfFuel
-             end
-           | Finished rc => Ok (obs, Finished rc)
-           end) = Ok (pre ++ spec_trace timeo (S a) (S next) r, Finished 0%Z)).
-      { intros pre.
-        destruct (tryconnect (mkC r None timeo false false (S a) (S next)) all_ok) as [[st'|rc] obs'].
-        - destruct (conn_drive f st') as [[t fin]| | |]; try discriminate.
-          inversion IH; subst. rewrite <- app_assoc. split; reflexivity.
-        - inversion IH; subst. split; reflexivity. }
-      destruct timeo; cbn [all_ok timer_ok net_ok imm_ok negb];
-        cbn [conn_drive natural_event c_imm c_s c_sas c_timer];
-        destruct l as [e| |]; cbn [wf_outcome no_hang] in *; try discriminate;
-        cbn [conn_step c_s c_timer callback_connect negb c_imm c_timeo c_sas c_addr c_next];
-        try (destruct (N.eqb e 0) eqn:E0; [apply N.eqb_eq in E0; contradiction|]);
-        unfold callback_timeo, dofailed, docallback;
-        cbn [negb N.eqb c_s c_sas c_timeo c_timer c_imm c_addr c_next tl close_if spec_trace tmr].
-      * (* timeout enabled, asynchronous error *)
-        destruct (Tail ([CNetFired next; CTimerCancel] ++ [CGetErr next e; CClose next])) as (_ & T2).
-        match goal with |- match ?X with _ => _ end = _ =>
-          replace X with (Ok (([CNetFired next; CTimerCancel] ++ [CGetErr next e; CClose next]) ++
-                              spec_trace true (S a) (S next) r, Finished 0%Z)) end.
-        -- cbn [app]. reflexivity.
-        -- rewrite <- T2.
-           destruct (tryconnect (mkC r None true false false (S a) (S next)) all_ok) as [c obs']; reflexivity.
-      * (* timeout enabled, no answer: the timer fires *)
-        destruct (Tail [CTimerFired; CNetCancel next; CClose next]) as (_ & T2).
+      destruct l as [e| |]; cbn [wf_outcome no_hang] in Wo, No.
+      * (* asynchronous error: the next address is tried *)
+        pose proof (IH timeo (S a) (S next) f None (Wr eq_refl) (Nr eq_refl) Hf') as IH'.
+        unfold run_from, tryconnect.
+        cbn [c_sas c_addr c_next c_timeo c_timer c_imm try_loop sock_connect_bind_nb].
+        destruct timeo; conn_simpl;
+          (destruct (N.eqb e 0) eqn:E0; [apply N.eqb_eq in E0; contradiction|]); conn_simpl2.
+        -- pose proof (drive_tail f r true a next ([CNetFired next; CTimerCancel] ++ [CGetErr next e; CClose next]) IH') as T2.
+           match goal with |- match ?X with _ => _ end = _ =>
+             replace X with (Ok (([CNetFired next; CTimerCancel] ++ [CGetErr next e; CClose next]) ++
+                                 spec_trace true (S a) (S next) r, Finished 0%Z)) end.
+           ++ cbn [app]. reflexivity.
+           ++ rewrite <- T2.
+              destruct (tryconnect (mkC r None true false false (S a) (S next)) all_ok) as [c obs']; reflexivity.
+        -- pose proof (drive_tail f r false a next ([CNetFired next] ++ [CGetErr next e; CClose next]) IH') as T2.
+           match goal with |- match ?X with _ => _ end = _ =>
+             replace X with (Ok (([CNetFired next] ++ [CGetErr next e; CClose next]) ++
+                                 spec_trace false (S a) (S next) r, Finished 0%Z)) end.
+           ++ cbn [app]. reflexivity.
+           ++ rewrite <- T2.
+              destruct (tryconnect (mkC r None false false false (S a) (S next)) all_ok) as [c obs']; reflexivity.
+      * (* no answer: needs the timeout; the timer fires *)
+        subst timeo.
+        pose proof (IH true (S a) (S next) f None (Wr eq_refl) (Nr eq_refl) Hf') as IH'.
+        unfold run_from, tryconnect.
+        cbn [c_sas c_addr c_next c_timeo c_timer c_imm try_loop sock_connect_bind_nb].
+        conn_simpl; conn_simpl2.
+        pose proof (drive_tail f r true a next [CTimerFired; CNetCancel next; CClose next] IH') as T2.
         match goal with |- match ?X with _ => _ end = _ =>
           replace X with (Ok ([CTimerFired; CNetCancel next; CClose next] ++
                               spec_trace true (S a) (S next) r, Finished 0%Z)) end.
         -- cbn [app]. reflexivity.
         -- rewrite <- T2.
            destruct (tryconnect (mkC r None true false false (S a) (S next)) all_ok) as [c obs']; reflexivity.
-      * (* timeout enabled, success *)
-        reflexivity.
-      * (* no timeout, asynchronous error *)
-        destruct (Tail ([CNetFired next] ++ [CGetErr next e; CClose next])) as (_ & T2).
-        match goal with |- match ?X with _ => _ end = _ =>
-          replace X with (Ok (([CNetFired next] ++ [CGetErr next e; CClose next]) ++
-                              spec_trace false (S a) (S next) r, Finished 0%Z)) end.
-        -- cbn [app]. reflexivity.
-        -- rewrite <- T2.
-           destruct (tryconnect (mkC r None false false false (S a) (S next)) all_ok) as [c obs']; reflexivity.
-      * (* no timeout, success *)
-        reflexivity.
+      * (* success: nothing after this address matters *)
+        unfold run_from, tryconnect.
+        cbn [c_sas c_addr c_next c_timeo c_timer c_imm try_loop sock_connect_bind_nb].
+        destruct timeo; conn_simpl; conn_simpl2; reflexivity.
 Qed.
 
 Theorem conn_run_spec : forall timeo sas,
-  Forall wf_outcome sas -> Forall (no_hang timeo) sas ->
+  Forall wf_outcome (firstn (reached sas) sas) -> Forall (no_hang timeo) (firstn (reached sas) sas) ->
   conn_run timeo sas = Ok (spec_trace timeo 0 0 sas, Finished 0%Z).
 Proof.
   intros timeo sas Hwf Hnh.
@@ -186,16 +209,10 @@ Definition is_timer_off o := match o with CTimerCancel | CTimerFired => true | _
 Definition is_net_reg o := match o with CNetReg _ => true | _ => false end.
 Definition is_net_off o := match o with CNetFired _ | CNetCancel _ => true | _ => false end.
 
-Definition is_ok (o : outcome) : bool := match o with OPending _ LOk => true | _ => false end.
 Definition makes_socket (o : outcome) : bool := match o with OSockFail => false | _ => true end.
 
 (* independent description of the winner: the first address whose outcome is Ok; its descriptor
    is the (number of descriptors created for the addresses before it)-th one *)
-Fixpoint first_ok (sas : list outcome) : option nat :=
-  match sas with
-  | [] => None
-  | o :: r => if is_ok o then Some 0 else option_map S (first_ok r)
-  end.
 
 Definition sock_of (next : nat) (sas : list outcome) (i : nat) : nat :=
   next + length (filter makes_socket (firstn i sas)).
@@ -203,9 +220,6 @@ Definition sock_of (next : nat) (sas : list outcome) (i : nat) : nat :=
 Definition winner (next : nat) (sas : list outcome) : option nat :=
   option_map (sock_of next sas) (first_ok sas).
 
-(* number of addresses the request gets to *)
-Definition reached (sas : list outcome) : nat :=
-  match first_ok sas with Some i => S i | None => length sas end.
 
 Lemma callbacks_app a b : callbacks (a ++ b) = callbacks a ++ callbacks b.
 Proof. apply flat_map_app. Qed.
@@ -276,16 +290,17 @@ Qed.
 (* every timer that was armed is cancelled or fires, every network registration is consumed or
    cancelled: nothing is left registered when the cookie is freed *)
 Lemma spec_balance timeo : forall sas a next,
-  Forall (no_hang timeo) sas ->
+  Forall (no_hang timeo) (firstn (reached sas) sas) ->
   count is_timer_on (spec_trace timeo a next sas) = count is_timer_off (spec_trace timeo a next sas) /\
   count is_net_reg (spec_trace timeo a next sas) = count is_net_off (spec_trace timeo a next sas).
 Proof.
   induction sas as [|o r IH]; intros a next Hnh; [split; reflexivity|].
-  inversion Hnh as [|? ? No Nr]; subst.
+  destruct (forall_reached_cons _ _ _ Hnh) as (No & Nr).
   destruct o as [| |e|cret [e| |]]; cbn [spec_trace];
     repeat rewrite ?count_app; destruct timeo; cbn [tmr app no_hang] in *; try discriminate;
     unfold count in *; cbn [filter is_timer_on is_timer_off is_net_reg is_net_off length];
-    try (destruct (IH (S a) next Nr) as (A & B)); try (destruct (IH (S a) (S next) Nr) as (A' & B'));
+    try (destruct (IH (S a) next (Nr eq_refl)) as (A & B));
+    try (destruct (IH (S a) (S next) (Nr eq_refl)) as (A' & B'));
     split; try lia.
 Qed.
 
@@ -310,7 +325,7 @@ Qed.
 
 (* C06-M4 *)
 Theorem connect_first_success_lemma : forall timeo sas,
-  Forall wf_outcome sas -> Forall (no_hang timeo) sas ->
+  Forall wf_outcome (firstn (reached sas) sas) -> Forall (no_hang timeo) (firstn (reached sas) sas) ->
   exists trace,
     conn_run timeo sas = Ok (trace, Finished 0%Z) /\
     (* exactly one callback: the descriptor of the first address that connects, else -1 *)
@@ -397,4 +412,20 @@ Theorem connect_states_cancel_safe_lemma : forall timeo sas next st obs,
 Proof.
   intros timeo sas next st obs H. unfold network_connect in H. cbn [negb] in H.
   eapply tryconnect_running_safe; [|exact H]. reflexivity.
+Qed.
+
+(* ... whatever the outcomes of the allocation and of the registrations network_connect makes *)
+Theorem connect_states_cancel_safe_any_lemma : forall timeo sas next cookie_ok rg st obs,
+  network_connect timeo sas next cookie_ok rg = (Running st, obs) -> cancel_safe st.
+Proof.
+  intros timeo sas next cookie_ok rg st obs H. unfold network_connect in H.
+  destruct cookie_ok; cbn [negb] in H; [|discriminate].
+  eapply tryconnect_running_safe; [|exact H]. reflexivity.
+Qed.
+
+(* the hypotheses of connect_first_success_lemma follow from the same ones about the whole list *)
+Lemma forall_firstn {A} (P : A -> Prop) n l : Forall P l -> Forall P (firstn n l).
+Proof.
+  revert n. induction l as [|x t IH]; intros n H; destruct n; cbn; auto.
+  inversion H; subst. constructor; auto.
 Qed.
